@@ -722,6 +722,8 @@ pub struct Interp {
     /// exactly those this queue yields. None = not tracked any more (a prediction failed, the
     /// model diverged, or a rebuild with tied timestamps).
     pub sibling: Option<(PriceLevel, UuidGenerator, HashSet<IdKey>)>,
+    /// statistics handle taken when the level was created (or rebuilt)
+    pub stats_handle: Option<Arc<pricelevel::PriceLevelStatistics>>,
     pub tq: Option<VecDeque<OrderId>>,
     /// verdict for the match being audited: Some(true) the ticket queue yields exactly the
     /// observed makers and quantities, Some(false) it does not, None not tracked
@@ -795,6 +797,7 @@ impl Interp {
             trace: Vec::new(),
             keep_trace: false,
             sibling: None,
+            stats_handle: None,
             tq: Some(VecDeque::new()),
             tq_verdict: None,
         }
@@ -929,7 +932,12 @@ impl Interp {
         self.reconcile(&listing, after_match);
         // C15
         if self.stats_known {
-            let s = self.level.stats();
+            // read through a handle obtained earlier (right after the level was created / rebuilt)
+            // on odd steps, through a fresh one on even steps: both are the same statistics
+            let s = match (&self.stats_handle, self.step % 2) {
+                (Some(h), 1) => h.clone(),
+                _ => self.level.stats(),
+            };
             let got = (
                 s.orders_added() as u128,
                 s.orders_removed() as u128,
@@ -2270,6 +2278,7 @@ impl Interp {
             );
         }
         self.level = new;
+        self.stats_handle = Some(self.level.stats());
         // a rebuilt level has a fresh queue (listing order) and fresh statistics
         self.stale_possible.clear();
         self.stats_known = false;
@@ -2301,6 +2310,7 @@ pub fn run_history(h: &History, skip_reads: bool, keep_trace: bool) -> (Interp, 
 
 pub fn run_history_with(h: &History, skip_reads: bool, keep_trace: bool, excuse: (bool, bool)) -> (Interp, Vec<OpResult>) {
     let mut it = Interp::new(h);
+    it.stats_handle = Some(it.level.stats());
     it.excuse_kf_c04_1 = excuse.0;
     it.excuse_kf_c04_2 = excuse.1;
     it.skip_reads = skip_reads;
